@@ -13,6 +13,7 @@ Names are spelled in any case (the mapping API casefolds them); the 'name' membe
 """
 from __future__ import annotations
 
+import contextlib
 import io
 import math
 import random
@@ -327,29 +328,120 @@ def diff(a: dict, b: dict, text: bool, uuid_all: bool = True) -> str | None:
 
 
 # ------------------------------------------------------------------------------------------------ round trips
+class HangTimeout(BaseException):
+    """A call into the implementation did not return within the limit (a loop that does not end).  Not an Exception: the
+    `except Exception` handlers that turn an error of the implementation into "skip this case" must not swallow it."""
+
+
+HANG_LIMIT_S = 10.0      # one export / parse of these graphs takes a few milliseconds, also on a loaded machine
+
+
+@contextlib.contextmanager
+def time_limit(seconds: float = HANG_LIMIT_S):
+    """Interrupt the enclosed call into the implementation after `seconds` (main thread only; a no-op elsewhere).  The
+    caller treats HangTimeout like any other exception of the implementation: a failing input."""
+    import signal
+    import threading
+    if threading.current_thread() is not threading.main_thread() or not hasattr(signal, 'setitimer'):
+        yield
+        return
+
+    import time
+
+    def on_alarm(signum, frame):
+        raise HangTimeout(f'no result after {seconds:g} s')
+    outer_left = signal.getitimer(signal.ITIMER_REAL)[0]       # an enclosing limit, if any, goes on afterwards
+    t0 = time.monotonic()
+    old = signal.signal(signal.SIGALRM, on_alarm)
+    signal.setitimer(signal.ITIMER_REAL, seconds)
+    try:
+        yield
+    finally:
+        signal.setitimer(signal.ITIMER_REAL, 0)
+        signal.signal(signal.SIGALRM, old)
+        if outer_left > 0:
+            signal.setitimer(signal.ITIMER_REAL, max(outer_left - (time.monotonic() - t0), 0.01))
+
+
+def arm(seconds: float = 20.0) -> None:
+    """(Re)start a limit for the code that follows, until the next arm() or disarm(): used at the top of every iteration of a
+    correspondence loop, so that one case cannot keep a stage busy for ever.  The HangTimeout ends the stage (a broken
+    tie, see the stage guard in checks/c14.py); the searches, which have their own limits per call, then produce the input."""
+    import signal
+    import threading
+    if threading.current_thread() is not threading.main_thread() or not hasattr(signal, 'setitimer'):
+        return
+
+    def on_alarm(signum, frame):
+        raise HangTimeout(f'one case of the stage did not finish within {seconds:g} s')
+    signal.signal(signal.SIGALRM, on_alarm)
+    signal.setitimer(signal.ITIMER_REAL, seconds)
+
+
+def disarm() -> None:
+    import signal
+    import threading
+    if threading.current_thread() is threading.main_thread() and hasattr(signal, 'setitimer'):
+        signal.setitimer(signal.ITIMER_REAL, 0)
+        signal.signal(signal.SIGALRM, signal.SIG_DFL)
+
+
 def roundtrip(spec: dict, mode: dict) -> tuple[str | None, str]:
     """Build, export, parse, compare.  Returns (problem or None, stage).  mode: {'fmt':'binary','version':v,
-    'unicode':u} or {'fmt':'kv2','flat':b,'cull_uuid':b,'unicode':u}."""
+    'unicode':u} or {'fmt':'kv2','flat':b,'cull_uuid':b,'unicode':u}.  Every call into the implementation runs under
+    a time limit and any exception it raises is a problem of that stage (never an error of the check)."""
     from srctools import dmx
-    elems = build(spec)
-    before = canon(elems[0])
-    buf = io.BytesIO()
     try:
-        if mode['fmt'] == 'binary':
-            elems[0].export_binary(buf, version=mode['version'], unicode=mode['unicode'])
-        else:
-            elems[0].export_kv2(buf, flat=mode['flat'], cull_uuid=mode['cull_uuid'], unicode=mode['unicode'])
-    except Exception as e:   # the data is expressible by construction: an export error loses the graph
+        with time_limit():
+            elems = build(spec)
+            before = canon(elems[0])
+    except (Exception, HangTimeout) as e:   # the mapping API of Element / Attribute on valid arguments
+        return f'building the graph raised {type(e).__name__}: {str(e)[:200]}', 'build'
+    buf = io.BytesIO()
+    # the format name / version arguments of the exporters (defaults 'dmx', 1 when the mode does not give them)
+    fmt_kw = {k: mode[k] for k in ('fmt_name', 'fmt_ver') if k in mode}
+    try:
+        with time_limit():
+            if mode['fmt'] == 'binary':
+                elems[0].export_binary(buf, version=mode['version'], unicode=mode['unicode'], **fmt_kw)
+            else:
+                elems[0].export_kv2(buf, flat=mode['flat'], cull_uuid=mode['cull_uuid'], unicode=mode['unicode'], **fmt_kw)
+    except (Exception, HangTimeout) as e:   # the data is expressible by construction: an export error loses the graph
         return f'export raised {type(e).__name__}: {e}', 'export'
     data = buf.getvalue()
     try:
-        got, _, _ = dmx.Element.parse(io.BytesIO(data), unicode=(mode['unicode'] == 'silent'))
-    except Exception as e:
+        with time_limit():
+            got, got_name, got_ver = dmx.Element.parse(io.BytesIO(data), unicode=(mode['unicode'] == 'silent'))
+            after = canon(got)
+    except (Exception, HangTimeout) as e:
         return f'parse raised {type(e).__name__}: {str(e)[:200]}', 'parse'
-    after = canon(got)
+    if (got_name, got_ver) != (fmt_kw.get('fmt_name', 'dmx'), fmt_kw.get('fmt_ver', 1)):
+        return f'format name / version {fmt_kw or ("dmx", 1)} came back as {(got_name, got_ver)}', 'header'
     d = diff(before, after, text=(mode['fmt'] == 'kv2'),
              uuid_all=not (mode['fmt'] == 'kv2' and mode['cull_uuid'] and not mode['flat']))
-    return (None, 'ok') if d is None else (d, 'compare')
+    if d is not None:
+        return d, 'compare'
+    # state carried between calls: exporting must leave the graph as it was and give the same bytes when repeated;
+    # parsing the same bytes again must give the same graph (nothing kept from the first call)
+    try:
+        with time_limit():
+            if canon(elems[0]) != before:
+                return 'the export changed the graph it was given', 'repeat'
+            buf2 = io.BytesIO()
+            if mode['fmt'] == 'binary':
+                elems[0].export_binary(buf2, version=mode['version'], unicode=mode['unicode'], **fmt_kw)
+            else:
+                elems[0].export_kv2(buf2, flat=mode['flat'], cull_uuid=mode['cull_uuid'], unicode=mode['unicode'], **fmt_kw)
+            if buf2.getvalue() != data:
+                return 'a second export of the same graph gives other bytes', 'repeat'
+            got2, _, _ = dmx.Element.parse(io.BytesIO(data), unicode=(mode['unicode'] == 'silent'))
+            d2 = diff(before, canon(got2), text=(mode['fmt'] == 'kv2'),
+                      uuid_all=not (mode['fmt'] == 'kv2' and mode['cull_uuid'] and not mode['flat']))
+            if d2 is not None:
+                return f'a second parse of the same bytes differs: {d2}', 'repeat'
+    except (Exception, HangTimeout) as e:
+        return f'repeating export / parse raised {type(e).__name__}: {str(e)[:200]}', 'repeat'
+    return None, 'ok'
 
 
 def export_bytes(spec: dict, version: int, unicode: str) -> bytes:
